@@ -370,6 +370,16 @@ Fixpoint ss_merge_rev (da db : dvec) (ia ib : list nat) : Q :=
   end.
 Definition ss_dot_merge (a b : ssvec) : Q := ss_merge_rev (ss_val a) (ss_val b) (rev (ss_idx a)) (rev (ss_idx b)).
 
+(* SSVectorBase::operator=(const SSVectorBase& rhs): clear(), reDim(rhs.dim()), then the indexed values of a set-up rhs
+   (index list copied as it is), or the entries with |value| > eps of a rhs that is not set up; the result is set up *)
+Definition ss_assign_ss (eps : Q) (rhs this : ssvec) : ssvec :=
+  let base := dv_redim (ss_dim rhs) (ss_val (ss_clear this)) in
+  if ss_setup rhs then
+    mkSS (fold_right (fun i d => dv_set d i (dv_get (ss_val rhs) i)) base (ss_idx rhs)) (ss_idx rhs) true
+  else
+    let keep := filter (fun i => negb (qle_bool (qabs (dv_get (ss_val rhs) i)) eps)) (seq 0 (ss_dim rhs)) in
+    mkSS (fold_left (fun d i => dv_set d i (dv_get (ss_val rhs) i)) keep base) keep true.
+
 (* SSVectorBase::reDim(newdim) *)
 Definition ss_redim (n : nat) (s : ssvec) : ssvec :=
   mkSS (dv_redim n (ss_val s)) (filter (fun i => Nat.ltb i n) (ss_idx s)) (ss_setup s).
